@@ -231,6 +231,27 @@ class LockModel:
         if rec is None:
             return
         bad = [m for m in rec.get('methods', []) if m.get('kind') in ('copy_ctor', 'move_ctor', 'copy_assign', 'move_assign') and not m.get('deleted')]
+        # the shared holders are counted in a bit field of the word; the library is designed for that many simultaneous holders
+        # (the widths below are the ones of the analysed revision, frozen by hand): a narrower field wraps into the flag bits - or to
+        # an all-clear state - with fewer holders than the documented limit, and the word then admits an exclusive request
+        lay = getattr(self, 'layout', None)
+        if lay is not None and getattr(lay, 'ok', True):
+            want_w = {'PessimisticLock': 62, 'OptimisticLock': 30, 'MCSLock': 15}.get(self.cls)
+            width = lay.sixbit - lay.ubit
+            if want_w is not None:
+                self.sink.emit('C01.TYPE', 'ok' if width >= want_w else 'violated', '%s counts at least 2^%d - 1 simultaneous shared holders' % (self.cls, want_w),
+                               '%s:%s' % (rec['file'], rec['line']),
+                               'counter field [bit %d, bit %d)' % (lay.ubit, lay.sixbit) if width >= want_w else
+                               'the shared-holder counter is the field [bit %d, bit %d): %d bits instead of %d - %d simultaneous holders wrap it into the SIX / X flags and '
+                               'then to "no holders", and an exclusive request is admitted beside them' % (lay.ubit, lay.sixbit, width, want_w, 1 << width))
+        cd = rec.get('constexpr_default_ctor')
+        if cd is not None:
+            # a lock with static storage duration is usable from other objects' static initialisers: it exists, free, before any code
+            # runs only if its default constructor is constexpr (constant initialisation); a constructor that runs during dynamic
+            # initialisation re-zeroes a word that may already carry grants and a version
+            self.sink.emit('C01.TYPE', 'ok' if cd else 'violated', '%s is constant-initialised by its default constructor' % self.cls, '%s:%s' % (rec['file'], rec['line']),
+                           'constexpr default constructor' if cd else
+                           'the default constructor is not constexpr: a static lock is initialised at some point during program start-up, wiping grants taken (and the version published) before that point')
         self.sink.emit('C01.TYPE', 'ok' if not bad else 'violated', '%s is neither copyable nor movable' % self.cls, '%s:%s' % (rec['file'], (bad[0].get('line') if bad else rec['line'])),
                        'copy / move operations deleted' if not bad else
                        '%s is available: a copy of a held (or queued-on) lock carries its grants and node addresses; an assignment wipes the target\'s' % ', '.join(m['kind'] for m in bad))
@@ -310,6 +331,26 @@ def partial_count_masks(path, layout, extra=()):
                     k = b[1] & layout.SMASK
                     if k and k != layout.SMASK and symbols(a):
                         out.append((b[1], v))
+        if v[0] == 'trunc' and len(v) >= 3 and isinstance(v[2], int):
+            # a narrowing conversion of a value derived from the word: (w & M) >> k (or / 2^k) kept in `bits` bits looks at the
+            # word through the mask ((2^bits - 1) << k) & M
+            inner, tb = v[1], v[2]
+            k = 0
+            if isinstance(inner, tuple) and inner and inner[0] == 'op' and len(inner) == 5 and inner[1] in ('>>', '/') and is_const(inner[3]):
+                d = inner[3][1]
+                if inner[1] == '>>':
+                    k, inner = d, inner[2]
+                elif d and d & (d - 1) == 0:
+                    k, inner = d.bit_length() - 1, inner[2]
+            m = (1 << 64) - 1
+            if isinstance(inner, tuple) and inner and inner[0] == 'op' and len(inner) == 5 and inner[1] == '&':
+                for a, b in ((inner[2], inner[3]), (inner[3], inner[2])):
+                    if is_const(b) and not is_const(a):
+                        m = b[1]
+            eff = (((1 << tb) - 1) << k) & m
+            kk = eff & layout.SMASK
+            if kk and kk != layout.SMASK and symbols(v[1]):
+                out.append((eff, v))
         for x in v:
             if isinstance(x, tuple):
                 walk(x)
@@ -364,6 +405,33 @@ def free_word_symbols(v, out=None):
 RMW_OP = {'fetch_add': '+', 'fetch_sub': '-', 'fetch_xor': '^', 'fetch_or': '|', 'fetch_and': '&'}
 
 
+def order_tokens(conds, layout):
+    """rest-field values at which an *order* comparison of a whole word with a constant K changes its outcome: the rest parts of
+    K - 1, K and K + 1 (zero included).  `word > kSLock` and `word >= kSLock` differ exactly on the word whose count is one and
+    whose rest field is 0."""
+    out = []
+    rm = getattr(layout, 'RMASK', 0)
+    if not rm:
+        return out
+
+    def walk(v):
+        if not isinstance(v, tuple) or not v:
+            return
+        if v[0] == 'op' and len(v) == 5 and v[1] in ('<', '<=', '>', '>='):
+            for k in (v[2], v[3]):
+                if is_const(k) and k[1] > rm:
+                    for kk in (k[1] - 1, k[1], k[1] + 1):
+                        t = ('c', kk & rm)
+                        if t not in out:
+                            out.append(t)
+        for x in v:
+            if isinstance(x, tuple):
+                walk(x)
+    for c in conds:
+        walk(c)
+    return out[:4]
+
+
 class RowEval:
     """abstract evaluation of one atomic write on a lock word along one path"""
 
@@ -416,7 +484,7 @@ class RowEval:
         rel |= set(extra_syms)
         conds = [(c, o) for c, o in conds if symbols(c) & rel]
         syms = sorted(rel)
-        toks = self.ev.tokens_for([c for c, _ in conds] + [post_expr])
+        toks = self.ev.tokens_for([c for c, _ in conds] + [post_expr], extra=order_tokens([c for c, _ in conds], self.ev.L) if self.ev.rest_kind == 'version' else ())
         pre = {self.pre_sym: assume} if assume else None
         for env, und in feasible_envs(self.ev, syms, conds, toks, pre):
             yield env[self.pre_sym], self.ev.ev(post_expr, env), env, und
